@@ -78,7 +78,7 @@ class Oracle:
             self.ref = {}
             return None
         if name == "c.own":
-            pb = reply.split("pick=")[1]
+            pb = reply.split("pick=")[1].split()[0]
             p, b = pb.split("/")
             self.route[(a[0], a[1])] = ([int(x) for x in p.split(",")] if p != "-" else [], [int(x) for x in b.split(",")] if b != "-" else [])
             return None
@@ -399,7 +399,7 @@ class Gen:
                     for _ in range(r.randint(1, 3)):
                         k3 = hx(r.choice(keys))
                         rep = yield "c.own %s %s" % (dd, k3)
-                        o3 = int(rep.split("pick=")[1].split("/")[0].split(",")[-1])
+                        o3 = int(rep.split("pick=")[1].split()[0].split("/")[0].split(",")[-1])
                         owners.add(o3)
                         yield "c.put emb %d %s %s %s" % (o3, dd, k3, hx(b"again"))
                     others = [x for x in range(n) if x not in owners] or list(range(n))
